@@ -423,7 +423,7 @@ def _(c):
         def __add__(self, other):
             links.append(other)
             return self
-    parent = types.SimpleNamespace(orientation=POrient())
+    parent = types.SimpleNamespace(orientation=POrient(), name="PARENT_FRAME")   # (a frame's name need not be its orientation's: body-centred frames keep EME2000 axes)
     w = c.world(names={ORI: {"local": types.SimpleNamespace(to_local=to_local)}})
     lof = w.new(f"{ORI}:LocalOrbitalOrientation", "LOF", attached, kind, parent)
     c.ensure("linked_to_the_parent_orientation_only", len(links) == 1 and links[0] is lof)
@@ -438,15 +438,24 @@ def _(c):
              and ([x for x in log if x[0] == "propagate"] == ([("propagate", date)] if moving else [])))
 
 
+_PARENTS = {}
+
+
 def _grid_oframe(tier, rng):
-    """reference orbits {LEO inclined, Molniya} x axes {QSW, TNW, inertial} x reference given as {state vector, Kepler orbit} x dates {epoch, +1000 s, -2500 s} x 3 seeded probe states"""
+    """reference orbits {LEO inclined, Molniya} x axes {QSW, TNW, inertial} x reference given as {state vector, Kepler orbit, ephemeris} x held in {cartesian, keplerian} form x
+    dates {epoch, +1000 s, -2500 s} x 3 seeded probe states"""
     for o in (0, 1):
         for ax in (0, 1, 2):
-            for mv in (0, 1):
+            for mv in (0, 1, 2):
                 for dt in (0.0, 1000.0, -2500.0):
                     if not mv and dt:
                         continue
-                    yield {"orbit": o, "axes": ax, "moving": mv, "dt": dt, "seed": o * 7 + ax}
+                    for form in (0, 1):
+                        yield {"orbit": o, "axes": ax, "moving": mv, "dt": dt, "seed": o * 7 + ax, "form": form, "parent": 0}
+    # local frames whose parent is a body-centred frame (its name is not the name of its orientation)
+    for ax in (0, 1):
+        for mv in (0, 1):
+            yield {"orbit": 2, "axes": ax, "moving": mv, "dt": 500.0 * mv, "seed": 40 + ax, "form": 0, "parent": 1}
 
 
 @contract("C17", "orbit_frame.native", funcs=["beyond.frames.frames:orbit2frame", f"{ORI}:LocalOrbitalOrientation._to_parent", "beyond.frames.center:Center._to_parent", f"{L}:to_local"],
@@ -461,16 +470,30 @@ def _(c):
     from beyond.frames.frames import orbit2frame
     from beyond.constants import Earth
     from contracts.c19_mission import _kep2cart
-    a, e, i, O, w_, nu = [(6.9e6, 0.002, 0.9, 1.0, 2.0, 0.5), (2.66e7, 0.72, 1.1, 2.0, 4.7, 2.8)][c.integer("orbit")]
-    r0, v0 = _kep2cart(a, e, i, O, w_, nu, Earth.mu)
+    a, e, i, O, w_, nu = [(6.9e6, 0.002, 0.9, 1.0, 2.0, 0.5), (2.66e7, 0.72, 1.1, 2.0, 4.7, 2.8), (2.0e6, 0.01, 1.2, 0.3, 1.0, 2.0)][c.integer("orbit")]
+    pframe, mu_ = "EME2000", Earth.mu
+    if c.integer("parent"):
+        from beyond.env import solarsystem
+        from beyond.constants import Moon
+        if "moon" not in _PARENTS:
+            _PARENTS["moon"] = solarsystem.get_frame("Moon")
+        pframe, mu_ = _PARENTS["moon"], Moon.mu
+    r0, v0 = _kep2cart(a, e, i, O, w_, nu, mu_)
     d0 = Date(2018, 5, 4, 3, 2, 1)
     axes = [("QSW"), ("TNW"), None][c.integer("axes")]
     x0 = list(r0) + list(v0)
-    ref = Orbit(x0, d0, "cartesian", "EME2000", Kepler()) if c.integer("moving") else StateVector(x0, d0, "cartesian", "EME2000")
-    fr = orbit2frame(f"OF{c.integer('orbit')}{c.integer('axes')}{c.integer('moving')}{int(c.real('dt'))}", ref, orientation=axes, exists_warning=False)
+    form = ["cartesian", "keplerian"][c.integer("form")]
+    ref = Orbit(x0, d0, "cartesian", pframe, Kepler()) if c.integer("moving") else StateVector(x0, d0, "cartesian", pframe)
+    ref.form = form
+    if c.integer("moving") == 2:
+        # an ephemeris (held in that form) of the same orbit
+        from beyond.orbits import Ephem
+        ref = Ephem([ref.propagate(d0 + timedelta(seconds=-3000.0 + 100.0 * k)).copy(form=form) for k in range(51)])
+    kwp = {"parent": pframe} if c.integer("parent") else {}
+    fr = orbit2frame(f"OF{c.integer('orbit')}{c.integer('axes')}{c.integer('moving')}{int(c.real('dt'))}{c.integer('form')}", ref, orientation=axes, exists_warning=False, **kwp)
     date = d0 + timedelta(seconds=c.real("dt"))
-    at = ref.propagate(date) if c.integer("moving") else ref
-    here = np.asarray(at.copy(frame=fr, form="cartesian"), dtype=float)
+    at = (ref.propagate(date) if c.integer("moving") else ref).copy(form="cartesian")  # (a state at the origin has no keplerian elements: observed in cartesian form)
+    here = np.asarray(at.copy(frame=fr), dtype=float)
     c.ensure("orbit_at_the_origin", bool(np.linalg.norm(here[:3]) <= 1e-6))
     if axes is None:
         c.ensure("orbit_at_rest_in_its_frame", bool(np.linalg.norm(here[3:]) <= 1e-9))
@@ -480,9 +503,9 @@ def _(c):
     first = (r if axes == "QSW" else v) if axes else np.array([1.0, 0, 0])
     ok_rt = ok_axes = True
     for k in range(3):
-        probe = StateVector(list(r + rng.normal(size=3) * 2.0e3) + list(v + rng.normal(size=3) * 2.0), date, "cartesian", "EME2000")
+        probe = StateVector(list(r + rng.normal(size=3) * 2.0e3) + list(v + rng.normal(size=3) * 2.0), date, "cartesian", pframe)
         there = probe.copy(frame=fr)
-        back = np.asarray(there.copy(frame="EME2000"), dtype=float)
+        back = np.asarray(there.copy(frame=pframe), dtype=float)
         ok_rt = ok_rt and bool(np.linalg.norm(back[:3] - np.asarray(probe, dtype=float)[:3]) <= 1e-6 and np.linalg.norm(back[3:] - np.asarray(probe, dtype=float)[3:]) <= 1e-9)
         if axes:
             d = np.asarray(probe, dtype=float)[:3] - r
